@@ -238,32 +238,31 @@ def failure_of(case, f):
             'input': shrink(case, f), 'detail': f}
 
 
-def shrink(case, f):
-    """drop edits / transforms while the same clause still fails"""
+def shrink(case, f, rounds=8):
+    """greedy: per round, try every single deletion of an edit or an initial transform in ONE
+    worker call and keep the smallest candidate on which the same clause still fails"""
     cur = dict(case)
-
-    def still(c):
+    for _ in range(rounds):
+        cands = []
+        for i in range(len(cur['edits'])):
+            c = dict(cur)
+            c['edits'] = cur['edits'][:i] + cur['edits'][i + 1:]
+            cands.append(c)
+        if not any(e[0] in ('insert', 'delete', 'replace') for e in cur['edits']):
+            for i in range(len(cur['init'])):
+                c = dict(cur)
+                c['init'] = cur['init'][:i] + cur['init'][i + 1:]
+                cands.append(c)
+        if not cands:
+            break
         try:
-            r = run_cases([c], timeout=60)[0]
+            res = run_cases(cands, timeout=120)
         except Exception:  # noqa
-            return False
-        return any(x['clause'] == f['clause'] and x['site'] == f['site'] for x in r['fails'])
-    changed = True
-    rounds = 0
-    while changed and rounds < 12:
-        changed = False
-        rounds += 1
-        for key in ('edits', 'init'):
-            for i in range(len(cur[key])):
-                cand = dict(cur)
-                cand[key] = cur[key][:i] + cur[key][i + 1:]
-                if key == 'init' and any(e[0] in ('insert', 'delete', 'replace') for e in cur['edits']):
-                    continue
-                if still(cand):
-                    cur, changed = cand, True
-                    break
-            if changed:
-                break
+            break
+        hit = [c for c, r in zip(cands, res) if any(x['clause'] == f['clause'] and x['site'] == f['site'] for x in r['fails'])]
+        if not hit:
+            break
+        cur = min(hit, key=lambda c: len(json.dumps(c)))
     return cur
 
 
